@@ -31,7 +31,11 @@ def _edge_is_failure(b, F, sw, lab, cache):
                 s = strip(subj, calls=False)
                 # only failures of calls (Result/Option-returning); an explicit `None`/`Err` match on
                 # data fields is a data branch, not an error exit
-                if underlying_calls(subj):
+                ucs = underlying_calls(subj)
+                # the None of an iterator is loop termination, not an error exit
+                its = [c for c in ucs if re.search(r"Iterator::(next|next_back|nth|peek|find|find_map|last)$",
+                                                   b.blocks[c]["t"].get("fn") or "")]
+                if ucs and not its:
                     res = True
     cache[key] = res
     return res
